@@ -83,6 +83,8 @@ pub fn run(prop: &str, tier: &str, seed: u64, outfile: &str) {
         "C18" => gen_c18(&mut out, &mut rng, thorough),
         "C17" => crate::wasmops::gen(&mut out, &mut rng, thorough),
         "C14" => crate::histops::gen(&mut out, &mut rng, thorough),
+        "C19" => crate::faultops::gen(&mut out, &mut rng, thorough),
+        "C13" => crate::pixops::gen(&mut out, &mut rng, thorough),
         _ => {
             eprintln!("unknown property {}", prop);
             std::process::exit(2);
